@@ -59,8 +59,24 @@ fn store(prior: bool, sched: Option<&Sched>) -> Store {
     Store { _scratch: scratch, root, top, fs }
 }
 
+/// temporary files anywhere below the root (relative paths): a temporary file inside a bucket directory is also an object
+/// that listings show and reads serve
 fn tmp_files(root: &Path) -> Vec<String> {
-    std::fs::read_dir(root).map(|rd| rd.flatten().filter_map(|e| e.file_name().to_str().map(str::to_owned)).filter(|n| n.starts_with(".tmp.")).collect()).unwrap_or_default()
+    fn walk(root: &Path, dir: &Path, out: &mut Vec<String>) {
+        let Ok(rd) = std::fs::read_dir(dir) else { return };
+        for e in rd.flatten() {
+            let p = e.path();
+            if e.file_type().is_ok_and(|t| t.is_dir()) {
+                walk(root, &p, out);
+            } else if e.file_name().to_str().is_some_and(|n| n.starts_with(".tmp.") || n.contains(".internal.part")) {
+                out.push(p.strip_prefix(root).unwrap_or(&p).to_string_lossy().into_owned());
+            }
+        }
+    }
+    let mut out = Vec::new();
+    walk(root, root, &mut out);
+    out.sort();
+    out
 }
 
 /// what a later read returns after a restart (FileSystem::new runs the start-up cleaning): Ok(bytes) / Err(code)
